@@ -92,6 +92,17 @@ TARGETS = [
     dict(coq="try_from_buint", group="C13", path="src/buint/convert.rs", macro="try_from_buint",
          head="($BUint: ident, $Digit: ident; $($int: ty), *)", anchor="impl<const N: usize> TryFrom<$BUint<N>> for $int",
          fn="try_from", prim="$int", kinds=UI, conv="bits", inst="list", pre="$BUint,$Digit", selfty="PVal", calls={}),
+    dict(coq="bint_as_int", group="C09", path="src/bint/cast.rs", macro="bint_as",
+         head="($BInt: ident, $Digit: ident; $($int: ty), *)", anchor="impl<const N: usize> CastFrom<$BInt<N>> for $int",
+         fn="cast_from", prim="$int", kinds=UI, conv="bits", inst="list", pre="$BInt,$Digit", selfty="PVal",
+         calls={"<$int>::cast_from": "buint_as_int"}),
+    dict(coq="int_try_from_bint", group="C13", path="src/bint/convert.rs", macro="int_try_from_bint",
+         head="{ $BInt: ident, $Digit: ident; $($int: ty), * }", anchor="impl<const N: usize> TryFrom<$BInt<N>> for $int",
+         fn="try_from", prim="$int", kinds=I, conv="bits", inst="list", pre="$BInt,$Digit", selfty="PVal", calls={}),
+    dict(coq="uint_try_from_bint", group="C13", path="src/bint/convert.rs", macro="uint_try_from_bint",
+         head="($BInt: ident; $($uint: ty), *)", anchor="impl<const N: usize> TryFrom<$BInt<N>> for $uint",
+         fn="try_from", prim="$uint", kinds=U, conv="bits", inst="list", pre="$BInt", selfty="PVal",
+         calls={"<$uint>::try_from": "try_from_buint"}),
 ]
 GROUPS = {}
 for _t in TARGETS:
